@@ -92,17 +92,38 @@ def select_for_miri(g: RunGroup, tier: str, seed: int):
     for c in cases:
         sig = site_signature(c, hook.get(c.id, {}).get("resolved"))
         by_sig.setdefault(sig, []).append(c)
-    picks = []
+    cands = []
     for sig, lst in sorted(by_sig.items(), key=lambda kv: repr(kv[0])):
         lst.sort(key=lambda c: (len(c.decl.variants), c.id))
         lst = lst[:6]
-        picks.append(lst[seed % len(lst)])
-    # prefer shapes at type limits / negative runs, then cap
+        cands.append(lst[seed % len(lst)])
+    every = {"try_from": 1, "TryFrom": 1, "next": 1, "next_back": 1, "from_str": 1, "FromStr": 1, "iter": 1, "range": 1,
+             "zip": 1, "as_str": 1, "Display": 1, "Debug": 1, "IntoStr": 1}
+
+    def classes(c):
+        return set(site_classes(c, hook.get(c.id, {}).get("resolved"), every))
+
+    # first: three candidates for every unsafe-site class, so that the class coverage never depends on the cap
+    picks, seen = [], set()
+    all_classes = sorted(set().union(*[classes(c) for c in cands])) if cands else []
+    for cl in all_classes:
+        have = [c for c in cands if cl in classes(c)]
+        have.sort(key=lambda c: (len(c.decl.variants), (c.id * 7 + seed) % 11))
+        for c in have[:3]:
+            if c.id not in seen:
+                seen.add(c.id)
+                picks.append(c)
+
+    # then: shapes at type limits / negative runs first, up to the cap
     def interest(c):
         vals = c.decl.values()
         return (0 if (vals[0] < 0 and not c.decl.gapless()) else 1, len(vals), c.id)
-    picks.sort(key=interest)
-    picks = picks[:64]
+    for c in sorted(cands, key=interest):
+        if len(picks) >= 64:
+            break
+        if c.id not in seen:
+            seen.add(c.id)
+            picks.append(c)
     return sorted(picks, key=lambda c: -len(c.decl.variants))
 
 
